@@ -111,6 +111,10 @@ func (db *DB) GetBucket(i uint) (*Bucket, error) {
 	if i >= uint(db.Header.NumBuckets) {
 		return nil, fmt.Errorf("out of bounds bucket index: %d >= %d", i, db.Header.NumBuckets)
 	}
+	if db.Header.ValueSize > maxValueSize {
+		// the entry stride (hash + value) is a uint8: such a header cannot describe real buckets
+		return nil, fmt.Errorf("unsupported value size: %d", db.Header.ValueSize)
+	}
 
 	// Fill bucket handle.
 	bucket := &Bucket{
